@@ -15,12 +15,12 @@ func init() {
 	register(&PropDef{
 		ID: "C16",
 		Patterns: []string{"./clients/datasource", "./clients/resolution", "./guidedremediation/internal/strategy/common", "./guidedremediation/internal/strategy/override", "./guidedremediation/internal/strategy/relax",
-			"./guidedremediation/internal/remediation", "./guidedremediation/result", "./extractor/filesystem", "./extractor/filesystem/internal"},
+			"./guidedremediation/internal/remediation", "./guidedremediation/internal/resolution", "./guidedremediation/result", "./extractor/filesystem", "./extractor/filesystem/internal"},
 		Explain: "Decided: D1 lockset — the frozen guarded-by table holds at every access: RequestCache.{cache,calls} and CombinedNativeClient.{maven,npm,pypi}RegistryClient are read and written only with the struct's mu held (must-hold dataflow over Lock/Unlock/defer Unlock; constructors exempt); the scan-progress fields of walkContext that the status goroutine reads are written only with statusMu held and read by that goroutine only with it held; " +
 			"D2 single flight is atomic — in RequestCache.Get the cache-miss test, the pending-call test and the registration of the new call happen in one critical section (no Unlock on any path between), the fetch function is called with the lock released, every path after it signals the waiters (wg.Done), re-examines/removes the pending entry, and stores into the cache only when the fetch succeeded; " +
 			"D3 spawn-site sharing — goroutines spawned in a loop for the same received result never receive a slice that append may have built on a shared backing array (the argument is a fresh literal or built on slices.Clone); " +
 			"D4 fan-out bookkeeping and canonical output — every goroutine spawn is matched by exactly one increment of the pending counter and the worker sends exactly once; every return of the patch list passes SortFunc and then CompactFunc with the same comparator. " +
-			"Added in round 2: D1 additionally: a map/slice reference loaded from a guarded field is used only while the mutex is still held. Added in round 3: the collector's decisions that drop a received result are the audited ones (shared with C12), so follow-up attempts do not depend on arrival order. NOT decided: linearizability of the cache, equality of results across schedules, races inside third-party clients.",
+			"Added in round 2: D1 additionally: a map/slice reference loaded from a guarded field is used only while the mutex is still held. Added in round 3: the collector's decisions that drop a received result are the audited ones (shared with C12), so follow-up attempts do not depend on arrival order. Added in round 7: D3 additionally: ConstrainingSubgraph edits in place only edge lists the new nodes own (every store into such a field is a fresh slice). NOT decided: linearizability of the cache, equality of results across schedules, races inside third-party clients.",
 		Run: runC16,
 		Controls: []Mutant{
 			{Name: "getmap-unlocked", File: "clients/datasource/cache.go", Old: "func (rq *RequestCache[K, V]) GetMap() map[K]V {\n	rq.mu.Lock()\n	defer rq.mu.Unlock()\n", New: "func (rq *RequestCache[K, V]) GetMap() map[K]V {\n", Rule: "D1-lockset", Site: "GetMap"},
@@ -67,6 +67,7 @@ func runC16(p *Prog, r *Report) {
 	c16Patches(p, r)
 	c16ComparatorLoopReturnsDifferences(p, r, "D4-fanout")
 	c16SortsOwnCopy(p, r, "D3-spawn-sharing")
+	derivedGraphsOwnTheirEdges(p, r, "D3-spawn-sharing", "guidedremediation/internal/resolution", "DependencySubgraph.ConstrainingSubgraph")
 	// schedule independence of the collector: which follow-up attempts are launched for a received
 	// result must not depend on the results received before it — the decisions that end the handling
 	// of a received result are the audited ones (table shared with C12)
